@@ -422,6 +422,8 @@ class ExprMixin:
         if t[0] in ("new", "bm", "func", "cls", "closure", "timer", "dfr", "exc", "tuple", "reg", "regtop",
                     "loopcall", "encres"):
             return True
+        if t[0] in ("elem", "popped"):
+            return True     # what a registry holds is a request object (emit() refuses a None stored into a registry)
         if t[0] == "const":
             return t[1] is not None
         return None
@@ -557,7 +559,7 @@ class ExprMixin:
         k = t[0]
         if k == "const":
             return bool(t[1])
-        if k in ("new", "bm", "func", "cls", "closure", "timer", "dfr", "loopcall", "exc"):
+        if k in ("new", "bm", "func", "cls", "closure", "timer", "dfr", "loopcall", "exc", "elem", "popped"):
             return True
         if k == "not":
             v = self.truth(t[1], st)
@@ -652,6 +654,19 @@ class ExprMixin:
                 ast.copy_location(p, test)
             yield from self.branch(bo, st, fx)
             return
+        if isinstance(test, ast.Compare) and len(test.ops) == 1 and isinstance(test.ops[0], (ast.In, ast.NotIn)) and record \
+                and isinstance(test.comparators[0], (ast.Tuple, ast.List, ast.Set)) and 0 < len(test.comparators[0].elts) <= 8 \
+                and all(isinstance(x, ast.Constant) for x in test.comparators[0].elts):
+            # x in (c1, c2, ..)  ==  x == c1 or x == c2 ..   (so the later x == ci tests are decided by the facts)
+            isin = isinstance(test.ops[0], ast.In)
+            parts = [ast.Compare(left=test.left, ops=[ast.Eq() if isin else ast.NotEq()], comparators=[c]) for c in test.comparators[0].elts]
+            bo = ast.BoolOp(op=ast.Or() if isin else ast.And(), values=parts) if len(parts) > 1 else parts[0]
+            ast.copy_location(bo, test)
+            for p in parts:
+                ast.copy_location(p, test)
+            ast.fix_missing_locations(bo)
+            yield from self.branch(bo, st, fx)
+            return
         for r, t, s in self.ev(test, st, fx):
             if r == "raise":
                 yield r, t, s
@@ -664,6 +679,22 @@ class ExprMixin:
                 yield "ok", None, s
                 continue
             text = ast.unparse(test)
+            if isinstance(t, tuple) and t[0] == "cmp" and t[1] in ("in", "not in") and isinstance(t[3], tuple) and t[3] and t[3][0] == "reg":
+                # membership of a key in a registry: a lookup that hits or misses; after a hit the entry is known to be there
+                reg, addr, key = t[3][1], t[3][2], t[2]
+                if (reg, key) in s.hits:
+                    yield "ok", t[1] == "in", s
+                    continue
+                for hit in (True, False):
+                    s2 = s.fork()
+                    pol = hit if t[1] == "in" else (not hit)
+                    s2.conds = s2.conds + (Cond(t, pol, fx.func.file, test.lineno, text),)
+                    self.assume(t, pol, s2)
+                    self.emit(s2, fx, "LOOKUP", test, reg=reg, key=key, addr=addr, hit=hit, how="in")
+                    if hit:
+                        s2.hits.add((reg, key))
+                    yield "ok", pol, s2
+                continue
             for pol in (True, False):
                 s2 = s.fork()
                 s2.conds = s2.conds + (Cond(t, pol, fx.func.file, test.lineno, text),)
